@@ -117,6 +117,48 @@ class Context:
     def bor(self, a, b):
         return self.uf('bor', T.I, T.I, T.I)(a, b)
 
+    def class_const(self, info):
+        """A repository class as a term of sort Obj (for `x.__class__ == C` / `isinstance(x, C)` on objects known only as terms).
+        Distinct classes are distinct; an object whose class is C is an instance of every class in C's MRO."""
+        cs = self.__dict__.setdefault('_class_consts', {})
+        key = (info.module.relpath, info.name)
+        if key not in cs:
+            c = z3.Const('cls.%s' % info.name + ('' if not any(k[1] == info.name for k in cs) else '@' + info.module.relpath), T.Obj)
+            for other in cs.values():
+                self.fact_axioms.append(c != other)
+            cs[key] = c
+            o = z3.Const('co', T.Obj)
+            fc = self.uf('field.__class__', T.Obj, T.Obj)
+            for base in info.mro(self.repo):
+                self.fact_axioms.append(z3.ForAll([o], z3.Implies(fc(o) == c, self.isinst_fn(base)(o)), patterns=[fc(o)]))
+        return cs[key]
+
+    def find_class_by_name(self, name):
+        for m in list(self.repo.modules.values()):
+            if name in m.classes:
+                return m.classes[name]
+        idx = self.__dict__.get('_class_index')
+        if idx is None:
+            import re
+            idx = {}
+            for root, _, files in os.walk(os.path.join(self.repo.root, 'yowsup')):
+                for f in files:
+                    if f.endswith('.py'):
+                        p = os.path.join(root, f)
+                        try:
+                            for mm in re.finditer(r'^class\s+(\w+)', open(p, encoding='utf-8').read(), re.M):
+                                idx.setdefault(mm.group(1), os.path.relpath(p, self.repo.root))
+                        except Exception:
+                            pass
+            self._class_index = idx
+        rel = idx.get(name)
+        if rel is None:
+            return None
+        return self.repo.module(rel).classes.get(name)
+
+    def isinst_fn(self, info):
+        return self.uf('isinst.%s' % info.name, T.Obj, T.B)
+
     def obj_truthy(self, t):
         return self.uf('obj_truthy', T.Obj, T.B)(t)
 
@@ -1285,6 +1327,19 @@ class Context:
                 c = I.cell(v)
                 return VBool(c.cls is not None and any(k.name == name for k in c.cls.mro(self.repo)))
             return VBool(False)
+        if fn in ('class_is', 'inst_of'):
+            # class_is(x, "C"): x.__class__ == C;  inst_of(x, "C"): isinstance(x, C) - for objects known only as terms
+            v = I.unwrap(I.ev(node.args[0], frame))
+            name = self.const_str(I, I.ev(node.args[1], frame))
+            ci = self.find_class_by_name(name)
+            if ci is None:
+                raise Unsupported('%s: class %s not found in the repository' % (fn, name), node)
+            if not isinstance(v, VOpaque):
+                raise Unsupported('%s on %r' % (fn, v), node)
+            if fn == 'class_is':
+                return VBool(self.uf('field.__class__', T.Obj, T.Obj)(v.t) == self.class_const(ci))
+            self.class_const(ci)
+            return VBool(self.isinst_fn(ci)(v.t))
         if fn == 'in_closure':
             # in_closure(f, lambda: expr): expr holds for the events produced when the callable f (a closure registered by the
             # function under verification, e.g. handed to execDetached) is later invoked with no arguments
@@ -1599,6 +1654,10 @@ class Context:
                 return 'inline'     # verified on its own, but callers execute the real body (results with concrete structure)
             return 'contract'
         if key in R.opaques:
+            return 'opaque'
+        wk = ('*', '*.' + fi.name)
+        if wk in R.opaques and key not in R.inlines:
+            R.opaques[key] = R.opaques[wk]      # opaque("*", "*.name", ...): every repository function of that name
             return 'opaque'
         if key in R.inlines:
             return 'inline'
@@ -2076,7 +2135,7 @@ class Context:
                     env = {}
                     for p, ty in lem.params:
                         env[p] = self.make_symbolic(I, ty, p)
-                        if isinstance(env[p], VRef):
+                        if isinstance(env[p], VRef) and not I.is_obj(env[p]):
                             env[p] = I.seq_of(env[p])
                     I.lemma_entry_env = dict(env)
                     reqs, enss, decs = self.lemma_clauses(lem)
